@@ -165,7 +165,9 @@ def modelStep (w : World) (ws : List String) : World × String :=
     | some l, some (f, _) =>
       let rs := specs.filterMap parseRegion
       if !f.connected || i.toNat?.isNone || specs.length < 2 || specs.length > 5 || rs.length != specs.length
-          || rs.any (·.leader.isNone) then bad
+          || rs.any (·.leader.isNone)
+          || rs.any (fun r => w.followers.any (fun x => x.1.connected &&
+                (x.1.failOnce.contains r.md.id || x.1.failAlways.contains r.md.id))) then bad
       else
         -- the leader's cache and history take the changes one by one; the first accepted change is sent alone
         -- (its send is parked), the others wait in the channel and leave as one message
@@ -187,6 +189,26 @@ def modelStep (w : World) (ws : List String) : World × String :=
     else
       let f : Follower := { hist := HistoryBuf.new (capOf (natArg c)) none flushC }
       ({ w with followers := w.followers ++ [(f, natArg c)] }, "ok")
+  | ["follower", c, "plain"] =>
+    if w.followers.length ≥ 4 then bad
+    else
+      let f : Follower := { hist := HistoryBuf.new (capOf (natArg c)) none flushC, plainKv := true }
+      ({ w with followers := w.followers ++ [(f, natArg c)] }, "ok")
+  | ["failsave", i, id, mode] =>
+    match w.followers[natArg i]? with
+    | some (f, c) =>
+      if !f.plainKv || i.toNat?.isNone then bad
+      else
+        let k := natArg id
+        let f' : Option Follower :=
+          if mode == "once" then some { f with failOnce := f.failOnce ++ [k] }
+          else if mode == "always" then some { f with failAlways := if f.failAlways.contains k then f.failAlways else f.failAlways ++ [k] }
+          else if mode == "off" then some { f with failOnce := f.failOnce.filter (· != k), failAlways := f.failAlways.filter (· != k) }
+          else none
+        match f' with
+        | some f' => ({ w with followers := w.followers.set (natArg i) (f', c) }, "ok")
+        | none => bad
+    | none => bad
   | ["connect", i, order] =>
     match w.leader, w.followers[natArg i]? with
     | some l, some (f, c) =>
